@@ -89,8 +89,11 @@ Lemma deps_kind_merged nd h s : deps_kind nd (merged_sig h s) = deps_kind nd s.
 Proof. reflexivity. Qed.
 
 (** ** trait generics of a function with concrete / [impl] / no dependencies: every non-lifetime parameter *)
-Lemma fold_push_where_params : forall ws tg, tg_params (fold_left tg_push_where ws tg) = tg_params tg.
-Proof. induction ws as [|w ws IH]; intros tg; cbn [fold_left]; [reflexivity|]. rewrite IH. reflexivity. Qed.
+Lemma fold_push_where_params lts : forall ws tg, tg_params (fold_left (lift_where lts) ws tg) = tg_params tg.
+Proof.
+  induction ws as [|w ws IH]; intros tg; cbn [fold_left]; [reflexivity|]. rewrite IH.
+  unfold lift_where. destruct (mentions_lifetime lts (wp_toks w)); reflexivity.
+Qed.
 
 Lemma fold_push_params : forall ps tg,
   tg_params (fold_left (fun acc p => if is_life p then acc else tg_push_param acc p) ps tg)
